@@ -343,6 +343,19 @@ fn eval_inner(ast: &Ast, m: &mut Model, run: &mut Run) -> Result<RV, RErr> {
                 None => Err(RErr::Class(ErrClass::UnknownFn(f.clone()))),
                 Some(Exp::V(v)) => Ok(v),
                 Some(Exp::Err) => Err(RErr::AnyError),
+                // alternatives that all denote the same value are exact
+                Some(Exp::Alt(alts))
+                    if !alts.is_empty()
+                        && alts.iter().all(|e| match (e, &alts[0]) {
+                            (Exp::V(a), Exp::V(b)) => a.same(b),
+                            _ => false,
+                        }) =>
+                {
+                    match &alts[0] {
+                        Exp::V(v) => Ok(v.clone()),
+                        _ => Err(RErr::AnyError),
+                    }
+                },
                 Some(other) => Err(RErr::Unclaimed(format!("builtin {} on {}: {}", f, a.show(), other.show()))),
             }
         },
